@@ -13,22 +13,52 @@ from ..core import MachineryError
 _n = [0]
 
 
+VIAS = ["direct", "copy", "deepcopy", "pickle"]
+
+
+def transfer(tr, via):
+    """the trait DEFINITION, optionally copied / pickled as a CTrait before it is used (no effect on what it governs)"""
+    if via == "direct":
+        return tr
+    import copy
+    import pickle
+    from traits.trait_converters import trait_from
+    ct = trait_from(tr)
+    try:
+        if via == "copy":
+            return copy.copy(ct)
+        if via == "deepcopy":
+            return copy.deepcopy(ct)
+        return pickle.loads(pickle.dumps(ct))
+    except (TypeError, AttributeError, pickle.PicklingError):
+        return tr            # a definition that refuses to be copied (e.g. a Property with a lambda) is used as it is
+
+
 def make_instance(cfg):
     build.install()
-    from traits.api import HasTraits, HasStrictTraits, HasPrivateTraits, Int, Str, ReadOnly, Constant, Event
+    from traits.api import (HasTraits, HasStrictTraits, HasPrivateTraits, Int, Str, ReadOnly, Constant, Event,
+                            on_trait_change)
     base = {"plain": HasTraits, "strict": HasStrictTraits, "private": HasPrivateTraits}[cfg["base"]]
+    via = cfg.get("via", "direct")
+    T = lambda tr: transfer(tr, via)
     decl = {"base": {}, "sub": {}}
     if cfg["wf"] != "absent":
-        decl[cfg["wf"]]["f_"] = Int
+        decl[cfg["wf"]]["f_"] = T(Int)
     if cfg["wfo"] != "absent":
-        decl[cfg["wfo"]]["fo_"] = Str
+        decl[cfg["wfo"]]["fo_"] = T(Str)
     if cfg["wu"] != "absent":
-        decl[cfg["wu"]]["__"] = Int
+        decl[cfg["wu"]]["__"] = T(Int)
     if cfg["explicit"]:
-        decl["base"]["foo"] = Int
-        decl["base"]["e"] = Event
-        decl["sub"]["r"] = ReadOnly
-        decl["sub"]["k"] = Constant(7)
+        decl["base"]["foo"] = T(Int)
+        decl["base"]["e"] = T(Event)
+        decl["sub"]["r"] = T(ReadOnly)
+        decl["sub"]["k"] = T(Constant(7))
+    if cfg.get("admit"):
+        def _admit(self, name):
+            # answers the first resolution of an undeclared name by admitting it as an Int instance trait
+            if not (name.startswith("__") and name.endswith("__")) and name not in self._instance_traits():
+                self.add_trait(name, Int())
+        decl["base"]["_admit"] = on_trait_change("trait_added")(_admit)
     _n[0] += 1
     B = type("C13Base%d" % _n[0], (base,), decl["base"])
     S = type("C13Sub%d" % _n[0], (B,), decl["sub"])
@@ -64,8 +94,10 @@ def replay_history(cfg, name, hist):
             elif op == "del":
                 delattr(obj, nm)
             elif op == "add_trait":
-                obj.add_trait(nm, {"int": Int(), "str": Str(), "readonly": ReadOnly, "event": Event,
-                                    "property": Property(lambda self: "pval")}[arg])
+                obj.add_trait(nm, transfer({"int": Int(), "str": Str(), "readonly": ReadOnly, "event": Event,
+                                            "property": Property(lambda self: "pval")}[arg], cfg.get("via", "direct")))
+            elif op == "add_wild":
+                type(obj).add_class_trait(arg + "_", transfer(Int if arg == "f" else Str, cfg.get("via", "direct")))
             elif op == "remove_trait":
                 res = "true" if obj.remove_trait(nm) else "false"
             else:
@@ -83,7 +115,8 @@ def replay_history(cfg, name, hist):
 
 
 def _cfg_of(c):
-    return {"base": str(c["base"]), "wf": str(c["wf"]), "wfo": str(c["wfo"]), "wu": str(c["wu"]), "explicit": bool(c["explicit"])}
+    return {"base": str(c["base"]), "wf": str(c["wf"]), "wfo": str(c["wfo"]), "wu": str(c["wu"]), "explicit": bool(c["explicit"]),
+            "admit": bool(c["admit"])}
 
 
 def case_fn(st, rep):
@@ -92,10 +125,13 @@ def case_fn(st, rep):
         return None
     cfg = _cfg_of(st["cfg"])
     name = [str(ch) for ch in st["name"]]
+    _rot[0] += 1
+    cfg["via"] = VIAS[_rot[0] % 4] if _rot[0] % 3 == 0 else "direct"      # the definition-transfer routes rotate over the cases
     r = {"cfg": cfg, "name": name, "hist": replay_history(cfg, name, hist)}
     return {"fail": None, "line": r, "sample": r}
 
 
+_rot = [0]
 NAMES = ["foo", "fo", "f", "fox", "x", "_x", "_fo", "__x__", "__x", "r", "k", "e", "foox", "f_o", "_", "___", "fo_x", "xf"]
 
 
@@ -105,12 +141,20 @@ def random_lines(seed, n, steps):
     for _ in range(n):
         cfg = {"base": rnd.choice(["plain", "strict", "private"]), "wf": rnd.choice(["absent", "base", "sub"]),
                "wfo": rnd.choice(["absent", "base", "sub"]), "wu": rnd.choice(["absent", "base", "sub"]),
-               "explicit": rnd.random() < 0.5}
+               "explicit": rnd.random() < 0.5, "admit": rnd.random() < 0.3, "via": rnd.choice(VIAS + ["direct"] * 4)}
         name = list(rnd.choice(NAMES))
         hist = []
+        dyn = set()
         for _ in range(rnd.randint(3, steps)):
-            op = rnd.choice(["get", "get", "set", "set", "set", "del", "add_trait", "remove_trait"])
+            op = rnd.choice(["get", "get", "set", "set", "set", "del", "add_trait", "remove_trait", "add_wild"])
             arg = "none"
+            if op == "add_wild":
+                free = [w for w in ("f", "fo") if cfg["wf" if w == "f" else "wfo"] == "absent" and w not in dyn]
+                if not free:
+                    op = "get"
+                else:
+                    arg = rnd.choice(free)
+                    dyn.add(arg)
             if op == "set":
                 arg = rnd.choice(["i5", "s"])
             elif op == "add_trait":
